@@ -104,23 +104,37 @@ func (c *Check) mappingHandOver() {
 		okRet := false
 		for _, b := range f.Blocks {
 			if ret, isRet := b.Instrs[len(b.Instrs)-1].(*ssa.Return); isRet && len(ret.Results) == 2 {
-				if k, isK := ret.Results[1].(*ssa.Const); !isK || !k.IsNil() {
+				// the values the address result can carry: with named results one return
+				// statement serves both outcomes and the result is a merge of 0 (error) and the
+				// translated address
+				vals := []ssa.Value{ret.Results[0]}
+				if ph, isPhi := ret.Results[0].(*ssa.Phi); isPhi {
+					vals = nil
+					for _, e := range ph.Edges {
+						if k, isK := constInt(e); isK && k == 0 {
+							continue
+						}
+						vals = append(vals, e)
+					}
+				} else if k, isK := ret.Results[1].(*ssa.Const); !isK || !k.IsNil() {
 					continue
 				}
-				got, ok := linForm(ret.Results[0], func(v ssa.Value) string {
-					if pr, ok := v.(*ssa.Parameter); ok && pr != f.Params[0] {
-						return "addr"
+				for _, val := range vals {
+					got, ok := linForm(val, func(v ssa.Value) string {
+						if pr, ok := v.(*ssa.Parameter); ok && pr != f.Params[0] {
+							return "addr"
+						}
+						if isFieldLoad(v, "binutils.file", "base") {
+							return "base"
+						}
+						return ""
+					})
+					if ok && sameLin(got, map[string]int{"addr": 1, "base": -1}) {
+						okRet = true
+					} else {
+						c.bad("C13-R7", "objaddr", p.relFile(ret.Pos()), "ObjAddr's successful return is not addr - base")
+						return
 					}
-					if isFieldLoad(v, "binutils.file", "base") {
-						return "base"
-					}
-					return ""
-				})
-				if ok && sameLin(got, map[string]int{"addr": 1, "base": -1}) {
-					okRet = true
-				} else {
-					c.bad("C13-R7", "objaddr", p.relFile(ret.Pos()), "ObjAddr's successful return is not addr - base")
-					return
 				}
 			}
 		}
@@ -303,13 +317,17 @@ func (c *Check) baseReads() {
 		}
 		n++
 		key := "base-read:" + fnName(f)
-		if fnName(f) == "(*binutils.fileAddr2Line).init" {
-			bad := onlyCalledFromOnceIn(c, f, "(*binutils.fileAddr2Line).SourceLine")
-			if bad == "" {
-				bad = c.initAfterBase(f)
+		// a function that only ever runs as the argument of a sync.Once.Do (the start of the
+		// symbolizer tools, which hands them file.base): the Do must come after the base is known
+		if sites, only := onceDoSites(p, f); len(sites) > 0 {
+			bad := ""
+			if !only {
+				bad = "is also used outside its once.Do"
+			} else {
+				bad = c.initAfterBase(f, sites)
 			}
 			if bad == "" {
-				c.ok("C13-R2", key, p.relFile(fa.Pos()), "file.base read in "+fnName(f), "init only runs under once.Do in SourceLine, after the baseErr test there")
+				c.ok("C13-R2", key, p.relFile(fa.Pos()), "file.base read in "+fnName(f), fnName(f)+" only runs under once.Do, after baseOnce.Do and where baseErr == nil")
 			} else {
 				c.bad("C13-R2", key, p.relFile(fa.Pos()), "file.base is read in init, which "+bad)
 			}
@@ -322,14 +340,7 @@ func (c *Check) baseReads() {
 		}
 		// unreachable when baseErr != nil
 		reach := reachUnder(f, func(cond ssa.Value) int {
-			isBaseErr := func(v ssa.Value) bool {
-				if isFieldLoad(v, "binutils.file", "baseErr") {
-					return true
-				}
-				// the outcome handed back by a helper that runs the once and returns baseErr
-				call, ok := v.(*ssa.Call)
-				return ok && call.Call.StaticCallee() != nil && returnsFieldOfReceiver(call.Call.StaticCallee(), "binutils.file", "baseErr")
-			}
+			isBaseErr := isBaseErrValue
 			if cmp, ok := cond.(*ssa.BinOp); ok && (isBaseErr(cmp.X) || isBaseErr(cmp.Y)) {
 				switch cmp.Op {
 				case token.NEQ:
@@ -506,7 +517,34 @@ func (c *Check) pipeAddresses() {
 					}
 					n++
 					key := fmt.Sprintf("ctor:%s@%s", ctor, fnName(g))
-					if isFieldLoad(call.Call.Args[idx], "binutils.file", "base") {
+					baseArg := call.Call.Args[idx]
+					for hop := 0; hop < 3; hop++ {
+						// handed down through a parameter of a helper with one call site
+						if a := argOfParam(p, baseArg, 0); a != baseArg {
+							baseArg = a
+							continue
+						}
+						// or handed back by an accessor that returns (file.base, file.baseErr)
+						if ex, ok := baseArg.(*ssa.Extract); ok {
+							if hc, ok := ex.Tuple.(*ssa.Call); ok && hc.Call.StaticCallee() != nil && fnInModule(hc.Call.StaticCallee()) {
+								all, nret := true, 0
+								for _, hb := range hc.Call.StaticCallee().Blocks {
+									if ret, ok := hb.Instrs[len(hb.Instrs)-1].(*ssa.Return); ok && ex.Index < len(ret.Results) {
+										nret++
+										if !isFieldLoad(ret.Results[ex.Index], "binutils.file", "base") {
+											all = false
+										}
+									}
+								}
+								if all && nret > 0 {
+									baseArg = &ssa.UnOp{} // marker replaced below
+									baseArg = nil
+								}
+							}
+						}
+						break
+					}
+					if baseArg == nil || isFieldLoad(baseArg, "binutils.file", "base") {
 						c.ok("C13-R3", key, p.relFile(call.Pos()), ctor+" called from "+fnName(g), "base argument is file.base")
 					} else {
 						c.bad("C13-R3", key, p.relFile(call.Pos()), ctor+" is called from "+fnName(g)+" with a base that is not file.base")
@@ -1112,13 +1150,7 @@ func isSearchHelper(h *ssa.Function) bool {
 // baseErrAssume: branch outcomes under the assumption that file.baseErr is non-nil (read
 // directly, or handed back by a helper that runs the once and returns it).
 func baseErrAssume(cond ssa.Value) int {
-	isBaseErr := func(v ssa.Value) bool {
-		if isFieldLoad(v, "binutils.file", "baseErr") {
-			return true
-		}
-		call, ok := v.(*ssa.Call)
-		return ok && call.Call.StaticCallee() != nil && returnsFieldOfReceiver(call.Call.StaticCallee(), "binutils.file", "baseErr")
-	}
+	isBaseErr := isBaseErrValue
 	if cmp, ok := cond.(*ssa.BinOp); ok && (isBaseErr(cmp.X) || isBaseErr(cmp.Y)) {
 		switch cmp.Op {
 		case token.NEQ:
@@ -1157,53 +1189,12 @@ func baseGoodAtCallers(p *Program, f *ssa.Function, depth int) string {
 // initAfterBase: init hands file.base to the tools it starts, so the once.Do that runs it
 // must come after the base was computed: in the function that calls it, baseOnce.Do
 // dominates the call and the call is unreachable when baseErr != nil.
-func (c *Check) initAfterBase(init *ssa.Function) string {
+func (c *Check) initAfterBase(init *ssa.Function, sites []*ssa.Call) string {
 	p := c.P
-	caller := p.Func("internal/binutils", "(*fileAddr2Line).SourceLine")
-	if caller == nil {
-		return "is started from a function that was not found"
-	}
-	n := 0
-	for _, g := range withHelpers(caller, 1) {
-		var doCalls []*ssa.Call
-		for _, b := range g.Blocks {
-			for _, ins := range b.Instrs {
-				call, ok := ins.(*ssa.Call)
-				if !ok || call.Call.StaticCallee() == nil || call.Call.StaticCallee().String() != "(*sync.Once).Do" || len(call.Call.Args) != 2 {
-					continue
-				}
-				mc, ok := call.Call.Args[1].(*ssa.MakeClosure)
-				if !ok {
-					continue
-				}
-				fn, _ := mc.Fn.(*ssa.Function)
-				if fn == nil || !(fn == init || (fn.Synthetic != "" && strings.HasPrefix(fn.Name(), init.Name()))) {
-					continue
-				}
-				doCalls = append(doCalls, call)
-			}
-		}
-		if len(doCalls) == 0 {
-			continue
-		}
-		isBaseErr := func(v ssa.Value) bool {
-			if isFieldLoad(v, "binutils.file", "baseErr") {
-				return true
-			}
-			// the outcome handed back by a helper that runs the once and returns baseErr
-			call, ok := v.(*ssa.Call)
-			if ok && call.Call.StaticCallee() != nil && returnsFieldOfReceiver(call.Call.StaticCallee(), "binutils.file", "baseErr") {
-				return true
-			}
-			if ex, ok := v.(*ssa.Extract); ok {
-				if call, ok := ex.Tuple.(*ssa.Call); ok && call.Call.StaticCallee() != nil && returnsFieldOfReceiver(call.Call.StaticCallee(), "binutils.file", "baseErr") {
-					return true
-				}
-			}
-			return false
-		}
+	for _, call := range sites {
+		g := call.Parent()
 		reach := reachUnder(g, func(cond ssa.Value) int {
-			if cmp, ok := cond.(*ssa.BinOp); ok && (isBaseErr(cmp.X) || isBaseErr(cmp.Y)) {
+			if cmp, ok := cond.(*ssa.BinOp); ok && (isBaseErrValue(cmp.X) || isBaseErrValue(cmp.Y)) {
 				switch cmp.Op {
 				case token.NEQ:
 					return 1
@@ -1213,18 +1204,12 @@ func (c *Check) initAfterBase(init *ssa.Function) string {
 			}
 			return 0
 		})
-		for _, call := range doCalls {
-			n++
-			if !dominatedByOnce(g, call) {
-				return "is started in " + fnName(g) + " (" + p.relFile(call.Pos()) + ") before baseOnce.Do has run: the tools are started with a copy of base 0 and are asked about runtime addresses instead of addresses in the file"
-			}
-			if reach[call.Block()] {
-				return "is started in " + fnName(g) + " (" + p.relFile(call.Pos()) + ") on a path where baseErr is non-nil"
-			}
+		if !dominatedByOnce(g, call) {
+			return "is started in " + fnName(g) + " (" + p.relFile(call.Pos()) + ") before baseOnce.Do has run: the tools are started with a copy of base 0 and are asked about runtime addresses instead of addresses in the file"
 		}
-	}
-	if n == 0 {
-		return "is not started through once.Do in SourceLine"
+		if reach[call.Block()] {
+			return "is started in " + fnName(g) + " (" + p.relFile(call.Pos()) + ") on a path where baseErr is non-nil"
+		}
 	}
 	return ""
 }
@@ -1336,4 +1321,33 @@ func (c *Check) baseStoredWhenComputed() {
 	if n == 0 {
 		c.undecided("C13-R8", "base-stored", p.relFile(cb.Pos()), "computeBase no longer calls elfexec.GetBase")
 	}
+}
+
+// isBaseErrValue: v is file.baseErr, read directly or handed back (as the only or the last
+// result) by a helper that runs the once and returns it.
+func isBaseErrValue(v ssa.Value) bool {
+	if isFieldLoad(v, "binutils.file", "baseErr") {
+		return true
+	}
+	if call, ok := v.(*ssa.Call); ok {
+		return call.Call.StaticCallee() != nil && returnsFieldOfReceiver(call.Call.StaticCallee(), "binutils.file", "baseErr")
+	}
+	if ex, ok := v.(*ssa.Extract); ok {
+		if call, ok := ex.Tuple.(*ssa.Call); ok && call.Call.StaticCallee() != nil && ex.Index == call.Call.StaticCallee().Signature.Results().Len()-1 {
+			return returnsFieldOfReceiver(call.Call.StaticCallee(), "binutils.file", "baseErr")
+		}
+	}
+	// an error variable that was assigned one of those
+	if ph, ok := v.(*ssa.Phi); ok {
+		for _, e := range ph.Edges {
+			if k, isC := e.(*ssa.Const); isC && k.IsNil() {
+				continue
+			}
+			if !isBaseErrValue(e) {
+				return false
+			}
+		}
+		return len(ph.Edges) > 0
+	}
+	return false
 }
